@@ -40,22 +40,36 @@ def evaluate(mod, cases, scratch, out, findings, asan=False):
         for kind in ("model", "spec"):
             fn = getattr(mod, kind + "_req", None)
             r = fn(c) if fn else None
-            if r is not None:
+            if r is None or r == []:
+                continue
+            if isinstance(r, str):
                 reqs.append(r)
-                idx.append((i, kind))
+                idx.append((i, kind, None))
+            else:
+                for j, rr in enumerate(r):
+                    reqs.append(rr)
+                    idx.append((i, kind, j))
     raw = C.run_model(reqs)
     model = [None] * len(cases)
     spec = [None] * len(cases)
-    has_model = [False] * len(cases)
-    has_spec = [False] * len(cases)
-    for (i, kind), r in zip(idx, raw):
+    multi = {}
+    for (i, kind, j), r in zip(idx, raw):
+        if j is None:
+            multi[(i, kind)] = r
+        else:
+            multi.setdefault((i, kind), []).append(r)
+    for (i, kind), r in multi.items():
         if kind == "model":
             model[i] = mod.model_decode(cases[i], r)
-            has_model[i] = True
         else:
             spec[i] = mod.spec_decode(cases[i], r)
-            has_spec[i] = True
-    eq = getattr(mod, "equal", lambda c, a, b: a == b)
+    has_model = [m is not None for m in model]
+    has_spec = [s_ is not None for s_ in spec]
+    def default_eq(c, a, b):
+        if isinstance(a, dict) and isinstance(b, dict) and "exc" in a and "exc" in b:
+            return a["exc"] == b["exc"]
+        return a == b
+    eq = getattr(mod, "equal", default_eq)
     for i, c in enumerate(cases):
         out.evals += 1
         ir = impl[i]
@@ -77,7 +91,10 @@ def evaluate(mod, cases, scratch, out, findings, asan=False):
         else:
             # no spec for this case (outside the property's domain): only an oracle, if any
             orc = getattr(mod, "oracle", None)
-            prop_ok = (not crashed) and (orc(c, ir) if orc else True)
+            if orc and getattr(mod, "ORACLE_SEES_MODEL", False):
+                prop_ok = (not crashed) and orc(c, ir, model[i])
+            else:
+                prop_ok = (not crashed) and (orc(c, ir) if orc else True)
         if not corr_ok:
             out.corr_breaks.append((c, ir, model[i]))
         if not prop_ok:
